@@ -301,6 +301,7 @@ def judge_runs(chk, runs, tag, batch=150000):
         if len(j) != 1 or j[0]["events"] != n_ev or j[0]["runs"] != i - first:
             raise core.ToolError("SyncTrace did not judge all of %d events / %d runs: %s" % (n_ev, i - first, res.out[-1500:]))
         chk.add_tlc(res)
+        chk.extra["tlc_states_trace_judging"] = chk.extra.get("tlc_states_trace_judging", 0) + res.distinct
         j = j[0]
         for b in j["bad"]:
             b["index"] = b["line"] - start[b["run"]] - 1   # index into runs[run]["events"] (len = the end event)
@@ -494,6 +495,46 @@ def conform_runs(bind, g, runs):
     return inside, first_bad
 
 
+CONF_KEEP = {"ev", "t", "cause", "w", "q", "progs", "sp", "run"}
+
+
+def conform_tlc(chk, prefix, runs, batch=150000):
+    """B2, algorithm level: runs through specs/<prefix>Trace.tla.  Returns {run index: event index the
+    model could not follow}."""
+    bad = {}
+    i = 0
+    part = 0
+    while i < len(runs):
+        path = os.path.join(chk.work, "conf_%d.ndjson" % part)
+        n_ev = 0
+        first = i
+        start = {}
+        order = []
+        with open(path, "w") as f:
+            while i < len(runs) and (n_ev < batch or i == first):
+                r = runs[i]
+                evs = [dict(r["reset"], run=i)] + r["events"]
+                start[i] = n_ev + 1
+                order.append(i)
+                for e in evs:
+                    f.write(json.dumps({k: v for k, v in e.items() if k in CONF_KEEP}, separators=(",", ":")) + "\n")
+                n_ev += len(evs)
+                i += 1
+        res = core.run_tlc("%sTrace.tla" % prefix, "%sTrace.cfg" % prefix, workers=1, env={"TRACE": path, "JAVA_TOOL_OPTIONS": JVM_OPTS},
+                           timeout=3000, xmx="4g", xss="256m")
+        core.tlc_must_pass(res, "%sTrace" % prefix)
+        j = res.printed("CONF")
+        if len(j) != 1 or j[0]["events"] != n_ev or j[0]["runs"] != i - first:
+            raise core.ToolError("%sTrace did not walk all of %d events / %d runs: %s" % (prefix, n_ev, i - first, res.out[-1500:]))
+        chk.add_tlc(res)
+        chk.extra["tlc_states_trace_judging"] = chk.extra.get("tlc_states_trace_judging", 0) + res.distinct
+        for b in j[0]["bad"]:
+            ri = order[b["run"] - 1]
+            bad[ri] = b["line"] - start[ri] - 1
+        part += 1
+    return bad
+
+
 def replay_paths(chk, bindir, bind, g, paths, progs, tag):
     plans = os.path.join(chk.work, "plans_%s.ndjson" % tag)
     with open(plans, "w") as f:
@@ -586,6 +627,7 @@ class LockCheck:
             f.write("---- MODULE %s_Obs ----\nEXTENDS %s_MC\nOrdObs == %s\n====\n" % (self.prefix, self.prefix, body))
 
     def record_config(self, chk, name, n, progs, budgets, res, ord_name):
+        chk.extra["tlc_states_model_checking"] = chk.extra.get("tlc_states_model_checking", 0) + res.distinct
         chk.extra.setdefault("model_configs", []).append({
             "config": name, "threads": n, "programs": self.PROGS.get(progs, progs), "budgets": dict(zip(self.budget_names, budgets)),
             "distinct_states": res.distinct, "generated": res.generated, "wall_s": round(res.wall, 1), "orderings": ord_name, "passed": res.ok})
@@ -759,8 +801,7 @@ class LockCheck:
         for tag, spec in specs:
             spec = dict(spec, seed=chk.seed, kind=self.lock)
             gname = spec.pop("graph", None)
-            if gname:
-                spec["snap"] = True
+            spec["snap"] = True
             spec.setdefault("max_secs", 7 if tier == "quick" else 45)
             runs, info = self.explore(chk, bindir, spec, tag)
             explored.append({"tag": tag, "progs": spec["progs"], "preemption_bound": spec.get("preempt"), "runs": len(runs),
@@ -782,6 +823,23 @@ class LockCheck:
                 chk.sample({"source": tag, "progs": spec["progs"], "sched": runs[-1]["end"]["sched"]})
 
         judge_pending()
+
+        # 4b. algorithm level: every recorded execution (any programs, up to 4 threads) must be a behaviour
+        #     of the algorithm-level specification (<Prefix>Trace.tla); what the model cannot follow is drift
+        t0 = time.time()
+        # (the tour replays were already compared step by step by B1: the quick tier leaves them out here)
+        sel = [r for r in pending if tier != "quick" or not r["source"].startswith("B1 ")]
+        conf_bad = conform_tlc(chk, self.prefix, sel)
+        chk.extra["algorithm_level_trace_validation"] = {"executions": len(sel), "accepted": len(sel) - len(conf_bad),
+                                                         "not_followed_by_model": len(conf_bad),
+                                                         "scope": "explored executions (DFS, coverage-guided, random)" if tier == "quick" else "all recorded executions"}
+        core.log("%sTrace: %d of %d executions are behaviours of %s.tla (%.1fs)" % (
+            self.prefix, len(sel) - len(conf_bad), len(sel), self.prefix, time.time() - t0))
+        for ri, where in sorted(conf_bad.items())[:3]:
+            r = sel[ri]
+            drift.append({"source": r.get("source"), "progs": r["reset"]["progs"], "event_index": where,
+                          "event": {k: v for k, v in r["events"][where].items() if k != "site"} if 0 <= where < len(r["events"]) else None,
+                          "why": "%sTrace.tla cannot follow this step" % self.prefix})
 
         # 5. hook-free binding: the real lock on the real kernel futex + FutexSys scenarios, judged by SyncStress.tla
         if stress:
